@@ -67,6 +67,24 @@ func ruleGlobalState(r *Run, only map[string]bool) {
 				}
 			}
 			key := strings.TrimPrefix(pp, modPath+"/pkg/") + "." + n
+			// lazily initialised table: every writer is a function literal handed to (*sync.Once).Do.
+			// That is an initialisation, not per-document state — provided nothing reachable from the
+			// table escapes into the objects the API hands out (a shallow copy shares the nested
+			// objects between all documents).
+			if len(writers) > 0 {
+				lazy := true
+				for _, w := range writers {
+					if !passedToOnceDo(p, w.fn) {
+						lazy = false
+					}
+				}
+				if lazy {
+					esc := globalContentEscapes(p, g, reach)
+					r.Check("global-state", key, g.Pos(), esc == "",
+						fmt.Sprintf("package-level variable %s is built once under sync.Once and then shared by every document: %s", n, map[bool]string{true: "nothing reachable from it escapes into per-document objects", false: esc}[esc == ""]))
+					continue
+				}
+			}
 			if len(writers) == 0 {
 				r.Check("global-state", key, g.Pos(), true, "immutable after package initialisation: no store to it or through it is reachable from the exported API")
 				continue
@@ -472,4 +490,131 @@ func ruleRenderPure(r *Run) {
 		})
 		r.Check("render-pure", shortName(fn)+":BaseDoc", fn.Pos(), bad == "", map[bool]string{true: "the base document is passed only to functions that do not write through it (it is cloned first)", false: bad}[bad == ""])
 	}
+}
+
+// passedToOnceDo: fn is a function literal that is only ever used as the argument of (*sync.Once).Do.
+func passedToOnceDo(p *Program, fn *ssa.Function) bool {
+	parent := fn.Parent()
+	if parent == nil {
+		return false
+	}
+	used, onlyOnce := false, true
+	allInstrs(parent, func(in ssa.Instruction) {
+		for _, op := range in.Operands(nil) {
+			v := *op
+			if mc, ok := v.(*ssa.MakeClosure); ok {
+				v = mc.Fn
+			}
+			if v != ssa.Value(fn) {
+				continue
+			}
+			if _, isMC := in.(*ssa.MakeClosure); isMC {
+				continue
+			}
+			used = true
+			c, ok := in.(ssa.CallInstruction)
+			if !ok || calleeName(c) != "(*sync.Once).Do" {
+				onlyOnce = false
+			}
+		}
+	})
+	return used && onlyOnce
+}
+
+// globalContentEscapes: a pointer-like value obtained from the content of global g is stored into
+// memory that is not itself part of g's content, or is returned, in a function reachable from the
+// API (other than the initialising literal).  Returns a description of the first escape, or "".
+func globalContentEscapes(p *Program, g *ssa.Global, reach map[*ssa.Function]bool) string {
+	for _, fn := range sortedFuncs(reach) {
+		if passedToOnceDo(p, fn) {
+			continue
+		}
+		var found string
+		allInstrs(fn, func(in ssa.Instruction) {
+			if found != "" {
+				return
+			}
+			ld, ok := in.(*ssa.UnOp)
+			if !ok || ld.Op != token.MUL || ld.X != ssa.Value(g) {
+				return
+			}
+			// everything derived from the loaded table
+			derived := map[ssa.Value]bool{ld: true}
+			for changed := true; changed; {
+				changed = false
+				allInstrs(fn, func(in2 ssa.Instruction) {
+					v, ok := in2.(ssa.Value)
+					if !ok || derived[v] {
+						return
+					}
+					switch x := in2.(type) {
+					case *ssa.UnOp, *ssa.FieldAddr, *ssa.Field, *ssa.IndexAddr, *ssa.Index, *ssa.Lookup, *ssa.Range, *ssa.Next, *ssa.Extract, *ssa.Phi, *ssa.Slice, *ssa.ChangeType, *ssa.MakeInterface, *ssa.TypeAssert:
+						for _, op := range x.Operands(nil) {
+							if *op != nil && derived[*op] {
+								derived[v] = true
+								changed = true
+								return
+							}
+						}
+					}
+				})
+			}
+			allInstrs(fn, func(in2 ssa.Instruction) {
+				if found != "" {
+					return
+				}
+				switch x := in2.(type) {
+				case *ssa.Store:
+					if !derived[x.Val] || derived[x.Addr] {
+						return
+					}
+					if sharesPointers(p, x.Val.Type()) {
+						found = fmt.Sprintf("%s stores a %s taken from the table into another object (%s): all documents share what it points to", shortName(fn), x.Val.Type(), p.pos(x.Pos()))
+					}
+				case *ssa.MapUpdate:
+					if derived[x.Value] && !derived[x.Map] && sharesPointers(p, x.Value.Type()) {
+						found = fmt.Sprintf("%s puts a %s taken from the table into another map (%s)", shortName(fn), x.Value.Type(), p.pos(x.Pos()))
+					}
+				case *ssa.Return:
+					for _, rv := range x.Results {
+						if derived[rv] && sharesPointers(p, rv.Type()) {
+							found = fmt.Sprintf("%s returns a %s taken from the table (%s)", shortName(fn), rv.Type(), p.pos(x.Pos()))
+						}
+					}
+				}
+			})
+		})
+		if found != "" {
+			return found
+		}
+	}
+	return ""
+}
+
+// sharesPointers: copying a value of this type shares memory (it is, or contains, a pointer,
+// slice, map, channel, function or interface).
+func sharesPointers(p *Program, t types.Type) bool {
+	seen := map[types.Type]bool{}
+	var walk func(t types.Type) bool
+	walk = func(t types.Type) bool {
+		if seen[t] {
+			return false
+		}
+		seen[t] = true
+		switch x := t.Underlying().(type) {
+		case *types.Basic:
+			return false
+		case *types.Struct:
+			for i := 0; i < x.NumFields(); i++ {
+				if walk(x.Field(i).Type()) {
+					return true
+				}
+			}
+			return false
+		case *types.Array:
+			return walk(x.Elem())
+		}
+		return true
+	}
+	return walk(t)
 }
